@@ -41,6 +41,7 @@ CODES = {12: "loading failed for a saved model with a lower bound above the conf
          7: "a second round trip changed the model again",
          8: "second round trip failed to load",
          10: "saving the loaded model again gives a different document",
+         11: "model_from_dict changed the dictionary it was given, or a second load of the same dictionary differs",
          9: "optimum differs after the round trip"}
 
 
@@ -154,7 +155,16 @@ def run_impl(spec, rng_seed):
             out["dict"] = {"err": type(e).__name__}
         loads = []
         if d is not None:
-            loads.append(("pristine", M.jv(d), load_result(d)))
+            d_before = M.jv(d)
+            first = load_result(d)
+            loads.append(("pristine", d_before, first))
+            # loading must not consume its argument: the same saved dictionary loads again to the same model
+            again = load_result(d)
+            if M.jv(d) != d_before:
+                out["reload"] = "model_from_dict changed the dictionary it was given"
+            elif again != first:
+                out["reload"] = "loading the same dictionary a second time gives a different model"
+
             for name, x in mutations(rng, d):
                 loads.append((name, M.jv(x), load_result(x)))
         out["loads"] = loads
@@ -272,6 +282,8 @@ def evaluate(specs, seeds):
             codes[i].append((1, 3))
         for tag, diff in o.get("doc_diffs", []):
             codes[i].append((100 + tag, 10))
+        if o.get("reload"):
+            codes[i].append((10, 11))
     return codes, faults, outs
 
 
